@@ -149,6 +149,9 @@ def run(ctx):
                     pre = {'codegen_div': 'div', 'codegen_sqrt': 'sqrt'}.get(cg, cg)
                     lines.append(f'fname {cfg_token(sig, int(alg.start_index))} {pre} ' + ' '.join(ks(k) for k in kin))
                     plan.append(({'sig': sig, 'op': opname, 'keys': [list(k) for k in kin]}, func.__name__))
+                    # ... and through the translated MultiVector.type_name (validates the translator)
+                    lines.append(f'srcfname {cfg_token(sig, int(alg.start_index))} {pre} ' + ' '.join(ks(k) for k in kin))
+                    plan.append(({'sig': sig, 'op': opname, 'keys': [list(k) for k in kin], 'via': 'translated source'}, func.__name__))
             ctx.count('histories')
     # operands and earlier results are never modified
     alg = make_algebra([1, 1, 1])
